@@ -41,6 +41,7 @@ var props = map[string]*propInfo{
 	"C09": {},
 	"C10": {},
 	"C11": {},
+	"C12": {},
 }
 
 func loadInfo(bin, id string, p *propInfo) error {
